@@ -263,6 +263,7 @@ pub fn gen_chain_cfg(seed: u64, o: &SwarmOpts) -> ChainCfg {
         keep_evals: false,
         max_evals: 0,
         reinit_at: None,
+        observe_math: false,
     }
 }
 
